@@ -66,6 +66,11 @@ type ftun struct {
 	drainM bool
 	wbuf   []byte
 	closed bool
+	// slow / failing tunnel writes (scripted)
+	holdNext bool          // the next Write blocks until release; it takes its bytes when it completes
+	entered  chan struct{} // closed when the held Write has been entered
+	relCh    chan struct{}
+	failing  bool // Writes fail (transiently) while set
 }
 
 func (t *ftun) Read(p []byte) (int, error) {
@@ -116,16 +121,39 @@ func (t *ftun) Read(p []byte) (int, error) {
 
 func (t *ftun) Write(p []byte) (int, error) {
 	t.mu.Lock()
-	defer t.mu.Unlock()
 	if t.closed {
+		t.mu.Unlock()
 		return 0, errClosed
 	}
-	if t.how == "err" && t.ended {
+	if (t.how == "err" && t.ended) || t.failing {
+		t.mu.Unlock()
 		return 0, errTunnel
 	}
+	hold := t.holdNext
+	if hold {
+		t.holdNext = false
+		close(t.entered)
+	}
+	t.mu.Unlock()
+	if hold {
+		// a slow tunnel (peer not draining, net.Pipe-like writer): the bytes of p are taken
+		// when the write completes - p belongs to the callee for the whole call
+		select {
+		case <-t.relCh:
+		case <-time.After(watchdog):
+		}
+	}
+	t.mu.Lock()
+	defer t.mu.Unlock()
 	t.wbuf = append(t.wbuf, p...)
 	t.cond.Broadcast()
 	return len(p), nil
+}
+
+func (t *ftun) set(f func()) {
+	t.mu.Lock()
+	f()
+	t.mu.Unlock()
 }
 
 func (t *ftun) CloseWrite() error { return nil }
@@ -171,6 +199,7 @@ type udpSide interface {
 	conn() io.ReadWriteCloser
 	peerSend(p []byte) error
 	readerParked() bool
+	drained() bool // everything the peer sent has been taken by the relay (unknown => false)
 	delivered() int
 	shutdown()
 }
@@ -185,6 +214,7 @@ type fsock struct {
 	closed bool
 	parked bool
 	count  int
+	slow   time.Duration // the first Write is slow: it takes its bytes this much later
 }
 
 func newFsock(rec *recorder) *fsock {
@@ -210,6 +240,12 @@ func (s *fsock) Read(p []byte) (int, error) {
 }
 func (s *fsock) Write(p []byte) (int, error) {
 	s.mu.Lock()
+	if d := s.slow; d > 0 && !s.closed {
+		s.slow = 0
+		s.mu.Unlock()
+		time.Sleep(d)
+		s.mu.Lock()
+	}
 	defer s.mu.Unlock()
 	if s.closed {
 		return 0, io.ErrClosedPipe
@@ -234,6 +270,7 @@ func (s *fsock) peerSend(p []byte) error {
 	return nil
 }
 func (s *fsock) readerParked() bool { s.mu.Lock(); defer s.mu.Unlock(); return s.parked }
+func (s *fsock) drained() bool      { s.mu.Lock(); defer s.mu.Unlock(); return len(s.in) == 0 }
 func (s *fsock) delivered() int     { s.mu.Lock(); defer s.mu.Unlock(); return s.count }
 func (s *fsock) shutdown()          { s.Close() }
 
@@ -281,6 +318,7 @@ func (s *rsock) peerSend(p []byte) error {
 	return err
 }
 func (s *rsock) readerParked() bool { return false }
+func (s *rsock) drained() bool      { return false }
 func (s *rsock) delivered() int     { s.mu.Lock(); defer s.mu.Unlock(); return s.count }
 func (s *rsock) shutdown()          { s.relay.Close(); s.peer.Close() }
 
@@ -294,7 +332,13 @@ type udpSpec struct {
 	How    string `json:"how"`
 	Bounds []int  `json:"bounds"` // chunk ends of the tunnel Reads
 	Pace   string `json:"pace"`
-	Model  any    `json:"model,omitempty"`
+	// Slow: "" | "tunnelWrite" (the first tunnel Write is held while the remaining datagrams
+	// arrive) | "tunnelWriteAfterFailures" (tunnel Writes fail while the first Fail datagrams
+	// arrive - the batch grows to the batch-full flush -, then the next Write is held) |
+	// "sockWrite" (the first UDP socket write is slow while more of the stream is available)
+	Slow  string `json:"slow,omitempty"`
+	Fail  int    `json:"fail,omitempty"`
+	Model any    `json:"model,omitempty"`
 }
 
 func wholeBefore(sizes []int, cut int) int {
@@ -317,8 +361,16 @@ func driveUDP(env *fw.Env, sp udpSpec) *fw.Trace {
 	if sp.Cut > len(stream) {
 		return &fw.Trace{Status: fw.DriverError, Note: "cut beyond stream"}
 	}
-	tun := &ftun{rec: rec, stream: stream, cut: sp.Cut, how: sp.How, bounds: sp.Bounds, held: true}
+	tun := &ftun{rec: rec, stream: stream, cut: sp.Cut, how: sp.How, bounds: sp.Bounds, held: true,
+		entered: make(chan struct{}), relCh: make(chan struct{})}
 	tun.cond = sync.NewCond(&tun.mu)
+	lossy := sp.Slow == "tunnelWriteAfterFailures"
+	switch sp.Slow {
+	case "tunnelWrite":
+		tun.holdNext = true
+	case "tunnelWriteAfterFailures":
+		tun.failing = true
+	}
 	var side udpSide
 	if sp.Sock == "real" {
 		rs, err := newRsock(rec)
@@ -327,14 +379,27 @@ func driveUDP(env *fw.Env, sp udpSpec) *fw.Trace {
 		}
 		side = rs
 	} else {
-		side = newFsock(rec)
+		fs := newFsock(rec)
+		if sp.Slow == "sockWrite" {
+			fs.slow = 40 * time.Millisecond
+		}
+		side = fs
 	}
 	t := orEmpty(sp.T)
 	u := orEmpty(sp.U)
-	rec.add(fw.Event{"ev": "UStart", "sock": sp.Sock, "via": sp.Via, "t": t, "u": u, "cut": sp.Cut, "how": sp.How})
+	rec.add(fw.Event{"ev": "UStart", "sock": sp.Sock, "via": sp.Via, "t": t, "u": u, "cut": sp.Cut, "how": sp.How, "sc": sp.Slow, "lossy": lossy})
 	done, cleanup := startRelay(sp.Via, "udp", side.conn(), tun)
 
 	// UDP peer -> tunnel
+	// waitTaken: the relay has read everything the peer sent so far (+ a grace period in which a
+	// writer that is not excluded by the batch mutex would touch the batch buffer)
+	waitTaken := func() {
+		for dl := time.Now().Add(300 * time.Millisecond); !side.drained() && time.Now().Before(dl); {
+			time.Sleep(time.Millisecond)
+		}
+		time.Sleep(30 * time.Millisecond)
+	}
+	released := false
 	for i, s := range sp.U {
 		rec.add(fw.Event{"ev": "USent", "idx": i + 1})
 		if err := side.peerSend(mkDatagram(tagU, i+1, s)); err != nil {
@@ -343,10 +408,33 @@ func driveUDP(env *fw.Env, sp udpSpec) *fw.Trace {
 			cleanup()
 			return &fw.Trace{Status: fw.DriverError, Note: "peer send: " + err.Error()}
 		}
+		switch {
+		case sp.Slow == "tunnelWrite" && i == 0:
+			// datagram 1 -> a flush starts and its tunnel Write is held -> the other datagrams arrive
+			select {
+			case <-tun.entered:
+			case <-time.After(flushWait):
+			}
+		case sp.Slow == "tunnelWriteAfterFailures" && i+1 == sp.Fail:
+			// the tunnel recovers; the next flush (batch-full or ticker) is the held Write
+			waitTaken()
+			tun.set(func() { tun.failing = false; tun.holdNext = true })
+		case sp.Slow == "tunnelWriteAfterFailures" && i+1 == sp.Fail+1:
+			select {
+			case <-tun.entered:
+			case <-time.After(flushWait):
+			}
+		}
 		if sp.Pace == "spaced" {
 			time.Sleep(35 * time.Millisecond)
 		}
 	}
+	if sp.Slow == "tunnelWrite" || sp.Slow == "tunnelWriteAfterFailures" {
+		waitTaken()
+		close(tun.relCh)
+		released = true
+	}
+	_ = released
 	if len(sp.U) > 0 {
 		deadline := time.Now().Add(flushWait)
 		for {
@@ -355,7 +443,9 @@ func driveUDP(env *fw.Env, sp udpSpec) *fw.Trace {
 				break
 			}
 			if time.Now().After(deadline) {
-				rec.add(fw.Event{"ev": "UFlushTimeout", "have": have})
+				if !lossy { // after tunnel write errors the statement does not demand delivery
+					rec.add(fw.Event{"ev": "UFlushTimeout", "have": have})
+				}
 				break
 			}
 			time.Sleep(2 * time.Millisecond)
